@@ -762,8 +762,9 @@ def xml_split(iri):
 
 
 class RDFXMLWriter:
-    def __init__(self, c):
+    def __init__(self, c, encoding=None):
         self.c = c
+        self.encoding = encoding  # declared in the XML declaration; the caller encodes the document accordingly
         self.ns = {RDF: "rdf"}  # namespace -> prefix, declared on the root
         self.base = None
 
@@ -961,7 +962,10 @@ class RDFXMLWriter:
             c.feat("xml:base")
             root_attrs += ' xml:base="%s"' % self.esc(self.base, attr=True)
         head = ""
-        if c.flag():
+        if self.encoding:
+            head = '<?xml version="1.0" encoding="%s"?>\n' % self.encoding
+            c.feat("encoding:" + self.encoding.lower())
+        elif c.flag():
             head = c.choice(['<?xml version="1.0"?>', '<?xml version="1.0" encoding="UTF-8"?>', "<?xml version='1.0' encoding='utf-8' standalone='yes'?>"]) + "\n"
         if len(nodes) == 1 and c.flag(4):
             # a single node element may be the document element
